@@ -134,7 +134,8 @@ class RealFd(RealMixin, D.Script):
 class Rig:
     """one transport of the given kind over a scripted double"""
 
-    def __init__(self, kind, wlog, bs, script=None):
+    def __init__(self, kind, wlog, bs, script=None, ptype=0):
+        self.ptype = ptype
         from ioflo.aio.tcp import clienting, serving
         from ioflo.aio.serial import serialing
         from ioflo.aio import wiring
@@ -192,7 +193,9 @@ class Rig:
     def do(self, op):
         t, name = self.t, op[0]
         if name == "tx":
-            t.tx(D.unhx(op[1]))
+            data = D.unhx(op[1])
+            # tx() is handed bytes, a bytearray or a memoryview of the same bytes
+            t.tx(data if self.ptype == 0 else bytearray(data) if self.ptype == 1 else memoryview(data))
         elif name == "feedtx":
             self.script.sends.extend(send_item(self.kind, x) for x in op[1])
         elif name == "feedrx":
@@ -225,7 +228,7 @@ class CHECK(core.Check):
             "serviceReceiveOnce / clearRxbs / connect-disconnect operations. Exhaustive: every send-answer sequence of "
             "length <= L over {accept 0,1,2,3 bytes, would-block, loss, other error} against every queue of <= 2 "
             "messages of <= 3 bytes (and 3 messages of <= 2 bytes), serviced L+1 times (L=2 quick, 4 thorough), "
-            "kinds rotated; random: long histories, messages up to 40 bytes, scripts of up to 6 answers per feed. "
+            "kinds, console verbosity (mute .. profuse) and payload type (bytes / bytearray / memoryview) rotated; random: long histories, messages up to 40 bytes, scripts of up to 6 answers per feed. "
             "Non-trivial = at least one byte went through the double and some service call ended with data still "
             "queued (partial send / would-block / loss) or delivered a chunk; distinct by the whole case. About 2% of the "
             "random cases run Incomer / Client / DeviceNb over a REAL non-blocking socketpair (send buffer 2304 bytes, "
@@ -237,6 +240,9 @@ class CHECK(core.Check):
                "the doubles stand for the kernel: a send accepts min(k, len) bytes or raises; TLS record layer, real "
                "sockets and real serial ports are not exercised",
                "WireLog with buffify=True (BytesIO); log files on disk are not exercised",
+               "the console runs at every verbosity from mute to profuse with its output discarded (the logging statements "
+               "format the payload, so they are code on the data path); memoryview payloads only below profuse, because the "
+               "profuse message of the code as it is calls .decode() on the payload",
                "real-socket cases use AF_UNIX socketpairs (partial sends, EAGAIN, EPIPE, EOF from a real kernel); TCP "
                "loopback, TLS and real serial hardware are not exercised"]
     PARTIAL = ["errno classification is abstract in this model (accept / would-block / loss / other); the concrete errno "
@@ -276,7 +282,11 @@ class CHECK(core.Check):
                     kind = KINDS[i % len(KINDS)]
                     i += 1
                     ops = [["tx", D.hx(m)] for m in msgs] + [["feedtx", list(seq)]] + [["stx"]] * (ln + 1)
-                    yield {"kind": kind, "wlog": 1, "bs": 8, "ops": ops}
+                    verb = (i // len(KINDS)) % 5
+                    ptype = (i // (5 * len(KINDS))) % 3
+                    if ptype == 2 and verb == 4:
+                        ptype = 1        # the profuse console message calls .decode() on the payload: no memoryview there
+                    yield {"kind": kind, "wlog": 1, "bs": 8, "verb": verb, "ptype": ptype, "ops": ops}
 
     def _send_tok(self, rng, errs, maxlen):
         x = rng.random()
@@ -322,7 +332,8 @@ class CHECK(core.Check):
                 ops.append(["peerclose"])
         ops += [["stx"], ["srx"]]
         return {"real": 1, "kind": rng.choice(["incomer", "client", "device"]), "wlog": rng.randrange(2),
-                "bs": rng.choice([64, 1024]), "sndbuf": 2304, "ops": ops}
+                "bs": rng.choice([64, 1024]), "sndbuf": 2304, "verb": rng.choice([0, 2, 4]), "ptype": rng.randrange(2),
+                "ops": ops}
 
     def generate(self, rng, n, tier):
         for _ in range(n):
@@ -366,7 +377,9 @@ class CHECK(core.Check):
                     ops.append(["live", rng.randrange(2)])
                 else:
                     ops.append(["stx"])
-            yield {"kind": kind, "wlog": rng.randrange(2), "bs": bs, "ops": ops}
+            verb = rng.randrange(5)
+            ptype = rng.choice([0, 0, 1, 2]) if verb < 4 else rng.randrange(2)
+            yield {"kind": kind, "wlog": rng.randrange(2), "bs": bs, "verb": verb, "ptype": ptype, "ops": ops}
 
     # ------------------------------------------------------------------ both sides
     def requests(self, case):
@@ -423,15 +436,16 @@ class CHECK(core.Check):
     def impl(self, case):
         if case.get("real"):
             return self._impl_real(case)
-        rig = Rig(case["kind"], case["wlog"], case["bs"])
+        rig = Rig(case["kind"], case["wlog"], case["bs"], ptype=case.get("ptype", 0))
         runner = self.Runner(rig)
         lines = ["ok"]
         ctx = D.patched_os(rig.script) if case["kind"] == "device" else None
         if ctx:
             ctx.__enter__()
         try:
-            for op in case["ops"]:
-                lines.append(runner.run(op))
+            with D.console_at(case.get("verb", 0)):
+                for op in case["ops"]:
+                    lines.append(runner.run(op))
         finally:
             if ctx:
                 ctx.__exit__(None, None, None)
@@ -467,13 +481,15 @@ class CHECK(core.Check):
                 sk.setsockopt(socket.SOL_SOCKET, socket.SO_SNDBUF, case.get("sndbuf", 2304))
             proxy = RealFd() if kind == "device" else RealSock()
             proxy.attach(a, via_fd=(kind == "device"))
-            rig = Rig(kind, case["wlog"], case["bs"], script=proxy)
+            rig = Rig(kind, case["wlog"], case["bs"], script=proxy, ptype=case.get("ptype", 0))
             runner = self.Runner(rig)
             lines, eops = ["ok"], []
             queued, peer_rx, peer_tx, nmsg, nchunk = b"", b"", b"", 0, 0
             ctx = D.patched_os(proxy) if kind == "device" else None
             if ctx:
                 ctx.__enter__()
+            vctx = D.console_at(case.get("verb", 0))
+            vctx.__enter__()
             try:
                 for op in case["ops"]:
                     name = op[0]
@@ -510,6 +526,7 @@ class CHECK(core.Check):
                     else:
                         raise KeyError(name)
             finally:
+                vctx.__exit__(None, None, None)
                 if ctx:
                     ctx.__exit__(None, None, None)
             # a feed line repeats the previous state with nothing moved
@@ -646,7 +663,8 @@ class CHECK(core.Check):
         cls = "errors" if any(t.startswith(("lost", "fail")) for t in toks) else \
               "blocking" if any(t.startswith("wb") for t in toks) else "plain"
         raised = any(l.startswith("raised") for l in out)
-        return "%s%s/%s%s" % (real, case["kind"], cls, "/raised" if raised else "")
+        return "%s%s/%s%s/v%d%s" % (real, case["kind"], cls, "/raised" if raised else "", case.get("verb", 0),
+                                    "bbm"[case.get("ptype", 0)])
 
     def shrink_candidates(self, case):
         ops = case["ops"]
